@@ -46,22 +46,31 @@ def o1(tier):
 @guard
 def o2(tier):
     """a manager re-created on the same storage answers like the one that took the snapshots"""
-    K = 2 if tier == 'quick' else 3
-    ob = Ob('O2', f'after <= {K} create steps on persistent storage, a freshly created manager (restart) and the original one give the same answer to is_better_candidate and rollback_to_epoch for every later query')
+    K = 3 if tier == 'quick' else 4
+    ob = Ob('O2', f'after every sequence of <= {K} create / rollback steps on persistent storage, a freshly created manager (restart) and the original one give the same answer to is_better_candidate and rollback_to_epoch for every later query')
     h = Harness(ob, persistent=True)
     r = z3.BitVecVal(5, 64)
     total = 0
-    for n in range(1, K + 1):
+    from props.snapharness import sequences
+    for seq in [q for q in sequences(K) if q[0] == 'C']:
         states = h.start(r, [])
-        for i in range(n):
+        for i, step in enumerate(seq):
             nxt = []
             for st, mgr, ref in states:
-                e, t, c = z3.BitVec(f'e{i}', 64), z3.BitVec(f't{i}', 64), cid(i)
-                for p in h.create(st, mgr, GID, e, c, t):
-                    ref2 = h.ref_create(p.st, ref, r, e, c, t)
-                    if ref2 is not None:
-                        p.st.pc.append(t != 0)
-                        nxt.append((p.st, mgr, ref2))
+                if step == 'C':
+                    e, t, c = z3.BitVec(f'e{i}', 64), z3.BitVec(f't{i}', 64), cid(i)
+                    for p in h.create(st, mgr, GID, e, c, t):
+                        ref2 = h.ref_create(p.st, ref, r, e, c, t)
+                        if ref2 is not None:
+                            p.st.pc.append(t != 0)
+                            nxt.append((p.st, mgr, ref2))
+                else:
+                    # a rollback before the restart: what it discards must also be gone from storage, or the restarted manager sees it again
+                    e = z3.BitVec(f'target{i}', 64)
+                    for p in h.rollback(st, mgr, GID, e):
+                        ref2, found = h.ref_rollback(p.st, ref, e)
+                        if ref2 is not None:
+                            nxt.append((p.st, mgr, ref2))
             states = nxt
         ce, ct, cc = z3.BitVec('cand_epoch', 64), z3.BitVec('cand_ts', 64), z3.BitVec('cand_id', 256)
         for st, mgr_a, ref in states:
@@ -83,7 +92,7 @@ def o2(tier):
                     same = len(qa) == len(qb) and all(ob.eng.prove(pb, z3.And(SM.snap_fields(x)['epoch'] == SM.snap_fields(y)['epoch'],
                                                                                 SM.id_bv(SM.snap_fields(x)['applied_commit_id']) == SM.id_bv(SM.snap_fields(y)['applied_commit_id'])))[0] for x, y in zip(qa, qb))
                     ob.require(same, 'O2/hydrated-queue-differs', f'hydrated manager tracks {len(qb)} snapshots, the original {len(qa)} (or different epochs/ids)', pb)
-    ob.r.bounds = {'creates before the restart': f'1..{K}', 'retention': 5, 'timestamps': 'non-zero u64', 'ids': '248 symbolic bits'}
+    ob.r.bounds = {'create / rollback steps before the restart': f'1..{K}', 'retention': 5, 'timestamps': 'non-zero u64', 'ids': '248 symbolic bits'}
     ob.r.assumptions += SM.ASSUMPTIONS
     ob.r.vacuity.append(f'{total} (pre-restart, post-restart) answer pairs compared')
     r_ = ob.done(cases=total)
@@ -109,4 +118,15 @@ def o3(tier):
 
 def run(tier, seed, only=None):
     obs = [('O1', o1), ('O2', o2), ('O3', o3)]
-    return [f(tier) for k, f in obs if not only or k in only]
+    out = []
+    for k, f in obs:
+        if only and k not in only:
+            continue
+        try:
+            out.append(f(tier))
+        except Exception as e:                      # an engine that cannot read the tree is an inconclusive obligation, not a crash of the whole check
+            from vlib.common import Result
+            rr = Result(k, 'sqlsym' if type(e).__name__ == 'SqlError' else 'mirsym', f.__doc__ or f.__name__)
+            rr.broken(f'{type(e).__name__}: {e}')
+            out.append(rr)
+    return out
